@@ -1,5 +1,5 @@
 SPECIFICATION Spec
-INVARIANT AgreeInv
-INVARIANT DeadInv
+INVARIANT SegInv
+INVARIANT TokInv
 INVARIANT EmitInv
 CHECK_DEADLOCK FALSE
